@@ -423,6 +423,10 @@ impl Sim {
         }
         for n in bad {
             self.viol("C10", "spurious_gradient_change", what.into(), format!("gradient slot of node {} changed by a {} event", n, what));
+            if matches!(what, "clone" | "flagclone" | "flag" | "rebind" | "drop" | "swap" | "gradread") {
+                // a handle operation changed a result: handles are not transparent
+                self.viol("C12", "handle_operation_changed_gradient", what.into(), format!("gradient slot of node {} changed by a {} event", n, what));
+            }
         }
     }
 
